@@ -66,6 +66,16 @@ def guarded(run: Any, ch: Any) -> 'ExecResult':
         return res
 
 
+def guarded_case(case: Any, fn: Any, *args: Any, seconds: float = 0.0, **kwargs: Any) -> Any:
+    """Run ``fn`` under the watchdog; returns its result, or a list with one 'hang' violation for this case."""
+    try:
+        with watchdog(seconds or 4 * WATCHDOG_S):
+            return fn(*args, **kwargs)
+    except Hang as hang:
+        return [{'clause': 'hang', 'features': {}, 'case': case,
+                 'detail': f'case did not finish within {seconds or 4 * WATCHDOG_S}s (unbounded loop?)\n{hang}'}]
+
+
 class Chooser:
     __slots__ = ('prefix', 'expect', 'log')
 
